@@ -273,10 +273,10 @@ impl ExactSizeIterator for MoveGen {
     /// Give the exact length of this iterator
     fn len(&self) -> usize {
         let mut result = 0;
+        // entries that are already exhausted have no bits left under the mask, so every
+        // entry can be counted; stopping at the first exhausted entry would report 0 as soon
+        // as iteration has moved past the first piece
         for i in 0..self.moves.len() {
-            if self.moves[i].bitboard & self.iterator_mask == EMPTY {
-                break;
-            }
             if self.moves[i].promotion {
                 result += ((self.moves[i].bitboard & self.iterator_mask).popcnt() as usize)
                     * NUM_PROMOTION_PIECES;
@@ -284,7 +284,8 @@ impl ExactSizeIterator for MoveGen {
                 result += (self.moves[i].bitboard & self.iterator_mask).popcnt() as usize;
             }
         }
-        result
+        // promotions already yielded for the current destination square
+        result.saturating_sub(self.promotion_index)
     }
 }
 
